@@ -32,6 +32,43 @@ impl Drop for Pl {
 pub trait Target: Val + Sized + 'static {
     const NAME: &'static str;
     fn fresh(flag: &Arc<AtomicBool>) -> Self;
+    /// has the target made by the last `fresh` been dropped?
+    fn dropped(flag: &Arc<AtomicBool>) -> bool {
+        flag.load(Ordering::SeqCst)
+    }
+}
+/// A zero-sized target with a destructor: it has no storage, so its "value" and its drop flag
+/// live in thread-locals (one sequence runs on one thread). Shortcuts for zero-sized types (no
+/// allocation, a dangling but aligned pointer) must still run the destructor exactly when the
+/// last handle goes away.
+pub struct PlZst;
+thread_local! {
+    static ZST_VALUE: std::cell::Cell<i64> = std::cell::Cell::new(0);
+    static ZST_DROPS: std::cell::Cell<u32> = std::cell::Cell::new(0);
+}
+impl Val for PlZst {
+    fn getv(&self) -> i64 {
+        ZST_VALUE.with(|c| c.get())
+    }
+    fn setv(&mut self, v: i64) {
+        ZST_VALUE.with(|c| c.set(v))
+    }
+}
+impl Drop for PlZst {
+    fn drop(&mut self) {
+        ZST_DROPS.with(|c| c.set(c.get() + 1));
+    }
+}
+impl Target for PlZst {
+    const NAME: &'static str = "zero-sized";
+    fn fresh(_flag: &Arc<AtomicBool>) -> PlZst {
+        ZST_VALUE.with(|c| c.set(0));
+        ZST_DROPS.with(|c| c.set(0));
+        PlZst
+    }
+    fn dropped(_flag: &Arc<AtomicBool>) -> bool {
+        ZST_DROPS.with(|c| c.get()) > 0
+    }
 }
 impl Target for Pl {
     const NAME: &'static str = "align8";
@@ -265,7 +302,7 @@ fn run_seq<P: Target>(v: Variant, seq: &[usize], e: &mut Eng) -> u64 {
                     }
                 }
             }
-            let dropped = flag.load(Ordering::SeqCst);
+            let dropped = P::dropped(&flag);
             let want = count == 0 && v.refcounted();
             if dropped != want {
                 return Err((k, format!("target dropped = {} with {} live handle(s) (variant {:?})", dropped, count, v)));
@@ -281,7 +318,7 @@ fn run_seq<P: Target>(v: Variant, seq: &[usize], e: &mut Eng) -> u64 {
             }
         }
         drop(hs);
-        let dropped = flag.load(Ordering::SeqCst);
+        let dropped = P::dropped(&flag);
         if dropped != v.refcounted() {
             return Err((seq.len(), format!("after the last handle went away target dropped = {} (variant {:?})", dropped, v)));
         }
@@ -491,7 +528,7 @@ pub fn liveness(e: &mut Eng, depth: usize, budget: Budget) {
     for v in variants() {
         par_seqs(e, 5 * SLOTS, depth, budget, |seq, e| {
             e.outcome(h64(&(v as u8, seq)));
-            run_seq::<Pl>(v, seq, e)
+            run_seq::<Pl>(v, seq, e) + run_seq::<PlZst>(v, seq, e)
         });
     }
     arg_forms_all(e);
@@ -515,7 +552,7 @@ pub fn run(ctx: &Ctx) -> Vec<Eng> {
     let mut e = Eng::new(
         "c17-aliasing-seqs",
         "for each Reference variant of the build: all sequences of exactly `depth` operations over {clone(h), to_dyn!(h) (variants the macro does not list may refuse with 'not implemented'; a Reference they do hand out is judged like any other handle), read(h) (through borrow and borrow_mut), write(h, fresh value), drop(h)} x 3 handle slots on a fresh target; reference model = one cell + live-handle count: every read through any handle returns the last write, the payload's drop flag flips exactly when the last handle of an Rc/Arc variant goes away and never for pointer variants; non-trivial = a read while at least two handles are live, or a to_dyn! conversion",
-        &format!("depth {} => 15^{} sequences x {} variants on an 8-aligned target, 15^{} on 64- and 4096-aligned targets", depth, depth, variants().len(), depth - 1),
+        &format!("depth {} => 15^{} sequences x {} variants on an 8-aligned target, 15^{} on 64- and 4096-aligned and on zero-sized (with a destructor) targets", depth, depth, variants().len(), depth - 1),
     );
     for v in variants() {
         par_seqs(&mut e, 5 * SLOTS, depth, budget, |seq, e| {
@@ -527,7 +564,7 @@ pub fn run(ctx: &Ctx) -> Vec<Eng> {
         // the same sequences (one step shorter) on over-aligned targets
         par_seqs(&mut e, 5 * SLOTS, depth - 1, budget, |seq, e| {
             e.outcome(h64(&(v as u8, 64u8, seq)));
-            run_seq::<PlWide>(v, seq, e) + run_seq::<PlPage>(v, seq, e)
+            run_seq::<PlWide>(v, seq, e) + run_seq::<PlPage>(v, seq, e) + run_seq::<PlZst>(v, seq, e)
         });
     }
     // long sequences: default op = read(h0); up to k deviations (any other op) in 12 steps
